@@ -92,7 +92,7 @@ def run(ctx):
         for conds, res in leaves:
             if res[0] == "variant" and res[2] == "Ok" and res[3][0][0] == "variant":
                 for cnd in conds:
-                    if cnd[0] == "eq" and cnd[1][0] == "discr":
+                    if cnd[0] == "eq" and cnd[1][0] == "discr" and cnd[1][1][0] != "call":   # (the TYPE matched on, not the outcome of a nested parse)
                         arms[tvariants[cnd[2]]] = res[3][0]
         badc = []
         for c in range(65536):
